@@ -111,10 +111,10 @@ Definition strip_tail (abs : Q) (b : pt) (r : list gp) : list gp :=
   | _ => r
   end.
 
-Fixpoint eat_chain (fuel : nat) (abs : Q) (b : pt) (act : list gp) : option (list gp) :=
+Fixpoint eat_chain (fuel : nat) (rel abs : Q) (b : pt) (act : list gp) : option (list gp) :=
   match fuel, act with
-  | S f, GCube _ _ _ e :: r => if pnear2 abs REL7 e b then Some (strip_tail abs b r) else eat_chain f abs b r
-  | S f, GLine _ e :: r => if pnear2 abs REL7 e b then Some (strip_tail abs b r) else eat_chain f abs b r
+  | S f, GCube _ _ _ e :: r => if pnear2 abs rel e b then Some (strip_tail abs b r) else eat_chain f rel abs b r
+  | S f, GLine _ e :: r => if pnear2 abs rel e b then Some (strip_tail abs b r) else eat_chain f rel abs b r
   | _, _ => None
   end.
 
@@ -127,7 +127,7 @@ Fixpoint pdf_match (rel abs : Q) (exp act : list gp) : bool :=
     let abs2 := (abs + (1 # 68719476736) * Qmax (Qabs rx) (Qabs ry))%Q in
     match act with
     | (GCube a' _ _ _ | GLine a' _) :: _ =>
-      pnear2 abs rel a a' && match eat_chain 64 abs2 b act with Some ar => pdf_match rel abs er ar | None => false end
+      pnear2 abs rel a a' && match eat_chain 64 rel abs2 b act with Some ar => pdf_match rel abs er ar | None => false end
     | _ => false
     end
   | GQuad a c b :: er => match act with y :: ar => gp_near2 abs rel (q2c a c b) y && pdf_match rel abs er ar | [] => false end
